@@ -184,8 +184,8 @@ def check_modes(nodes, cur, ctxj, seen):
                     sub = cur
                     if specs is not None and len(specs) == len(nd.argnlist):
                         dl = specs[i][1]
-                        if dl == '+': sub = (True, None); seen.add('arg:enter')
-                        elif dl == '-': sub = (False, None); seen.add('arg:leave')
+                        if dl in ('+', '+c'): sub = (True, None); seen.add('arg:enter')
+                        elif dl in ('-', '-c'): sub = (False, None); seen.add('arg:leave')
                     items = list(a) if isinstance(a, (N.LatexNodeList, list, tuple)) else [a]
                     r = check_modes(items, sub, ctxj, seen)
                     if r: return r
